@@ -121,4 +121,10 @@ CHECKS["C05"] = {"engine": "spelling", "technique": "TLA+ writer machine for the
               "each rendered twice with random layout and escapes over hostile strings and local names, parsed through 7 routes (str, bytes, BytesIO, StringIO, path, pathlib.Path, open file) and validated by TLC against the machine's G up to blank-node bijection; 16 RDF/XML and 12 JSON-LD spellings of fixed graphs likewise; "
               "rdflib's N-Triples / N-Quads output for ~300 C03 shapes decoded line by line by the strict TLA+ grammar and compared with the source; XML / JSON outputs read by expat / json.")}
 ENGINES += [{"name": "spelling", "path": "spec/TurtleSpelling.tla spec/NTriplesGrammar.tla spec/TraceSpell.tla harness/rvf/spell_replay.py harness/rvf/spell_docs.py", "serves_properties": ["C05"], "kind_free_text": "writer state machine + strict grammar in TLA+; rdflib parses what the machine writes"}]
+CHECKS["C20"] = {"engine": "sparqlstore", "technique": "TLA+ state machine of endpoint + pending-update queue (SparqlStore.tla: one action per store call, autocommit / dirty-read switches, ghost local dataset; invariants and action properties model-checked, reversed-commit variant refuted) + TLC-exported histories replayed on SPARQLUpdateStore against a loopback endpoint + TLC trace validation (TraceSparqlStore.tla)",
+    "note": _NOTE_COMMON + " The endpoint is rdflib's own engine behind an in-process SPARQL Protocol shim (urlopen patched in sparqlconnector), with a default graph that is not named urn:x-rdflib:default; no third-party endpoint, no real sockets. Blank nodes are not sent (unsupported by design).",
+    "level": ("TLC checks Inv_Mirror (endpoint + queue = local dataset), visibility only at commit / flushing read / autocommit write, rollback discards exactly the queue, reads see all writes unless dirty, for the three switch settings (57 260 states each), and refutes a reversed-order commit; "
+              "a 1/60 sample (thorough: a third) of the ~180 000 length-3 histories per setting exported by TLC plus seeded histories of 6-30 calls over 3 graphs are run through Graph facades on SPARQLUpdateStore (GET / POST / POST_FORM x XML / JSON x 6 object vocabularies); "
+              "after every call TLC validates the endpoint's quads (read directly) against the state machine and every read result (triples with all pattern shapes, len, contains, contexts, SELECT / ASK) against the endpoint.")}
+ENGINES += [{"name": "sparqlstore", "path": "spec/SparqlStore.tla spec/MCSparqlStore.tla spec/TraceSparqlStore.tla harness/rvf/sparqlstore_replay.py", "serves_properties": ["C20"], "kind_free_text": "endpoint + queue state machine in TLA+; loopback endpoint; trace validation"}]
 NOT_BUILT: dict = {}
